@@ -86,6 +86,7 @@ func anySexp(full []byte) core.Sexp {
 
 func nodeSexp(raw asn1.RawValue, depth int) core.Sexp {
 	kids := core.Ls()
+	complete := false
 	if raw.IsCompound && depth < 10 {
 		var ks []core.Sexp
 		rest := raw.Bytes
@@ -100,9 +101,11 @@ func nodeSexp(raw asn1.RawValue, depth int) core.Sexp {
 			ks = append(ks, nodeSexp(k, depth+1))
 			rest = r2
 		}
-		if ok {
-			kids = core.Ls(core.Ls(ks...))
-		}
+		// the well-formed prefix of the content, and whether it is all of it: decoding into
+		// []asn1.RawValue needs the whole content to be well-formed TLVs, decoding into a struct
+		// reads only as many members as it has fields and ignores what follows
+		kids = core.Ls(core.Ls(ks...))
+		complete = ok
 	}
 	oid := core.Ls()
 	if raw.Class == 0 && raw.Tag == 6 && !raw.IsCompound {
@@ -115,7 +118,7 @@ func nodeSexp(raw asn1.RawValue, depth int) core.Sexp {
 			oid = core.Ls(core.Ls(arcs...))
 		}
 	}
-	return core.Ls(core.Ai(raw.Class), core.Ai(raw.Tag), core.Bool(raw.IsCompound), core.Bs(raw.Bytes), kids, oid, anySexp(raw.FullBytes))
+	return core.Ls(core.Ai(raw.Class), core.Ai(raw.Tag), core.Bool(raw.IsCompound), core.Bs(raw.Bytes), kids, oid, anySexp(raw.FullBytes), core.Bool(complete))
 }
 
 type decodeTab struct {
